@@ -178,6 +178,12 @@ func deliveredAllowlistCase(r *vkit.Run, be *c09Backend, endpoint *url.URL, ec *
 	if g.IntN(2) == 0 {
 		c.Count = uint(1 + g.IntN(3))
 	}
+	// a configured (persistent) allow-list entry that no backend refresh may undo
+	persA := rand4(g)
+	if i%2 == 1 {
+		persA = rand6(g)
+	}
+	c.Persistent = []netip.Prefix{netip.PrefixFrom(persA, persA.BitLen())}
 	m := newMon(r, "delivery/allowlist", i, c)
 	m.keyPrefix = "backend:"
 	rl, err := backendpb.NewRateLimiter(&backendpb.RateLimiterConfig{
@@ -188,17 +194,23 @@ func deliveredAllowlistCase(r *vkit.Run, be *c09Backend, endpoint *url.URL, ec *
 		r.Inconclusive("layer 5: NewRateLimiter: " + err.Error())
 		return
 	}
-	be.mu.Lock()
-	be.allowed = cidrs(sent)
-	be.mu.Unlock()
 	ctx, cancel := context.WithTimeout(ctxBG, 60*time.Second)
 	defer cancel()
-	if err = rl.Refresh(ctx); err != nil {
-		r.Inconclusive("layer 5: RateLimiter.Refresh: " + err.Error())
+	refresh := func(list []netip.Prefix) bool {
+		be.mu.Lock()
+		be.allowed = cidrs(list)
+		be.mu.Unlock()
+		if rerr := rl.Refresh(ctx); rerr != nil {
+			r.Inconclusive("layer 5: RateLimiter.Refresh: " + rerr.Error())
+			return false
+		}
+		m.dyn = list // the model: what the backend sent
+		m.trace = append(m.trace, traceRec{Op: "backend sent rate-limit allowed_subnets " + fmt.Sprint(list)})
+		return true
+	}
+	if !refresh(sent) {
 		return
 	}
-	m.dyn = sent // the model: what the backend sent
-	m.trace = append(m.trace, traceRec{Op: "backend sent rate-limit allowed_subnets " + fmt.Sprint(sent)})
 
 	var clients []netip.Addr
 	for _, p := range sent {
@@ -219,6 +231,21 @@ func deliveredAllowlistCase(r *vkit.Run, be *c09Backend, endpoint *url.URL, ec *
 			}
 			if m.last.mustDrop && m.last.drop {
 				r.Bucket("l5_backend_not_allowlisted_drop", 1)
+			}
+		}
+	}
+	// The backend then delivers an EMPTY list and later the subnets again: the
+	// configured persistent entry stays allow-listed throughout.
+	for _, list := range [][]netip.Prefix{nil, sent, nil} {
+		if !refresh(list) {
+			return
+		}
+		for _, ip := range []netip.Addr{persA, randIn(g, sent[0]), rand4(g)} {
+			for j := 0; j < int(n)+2; j++ {
+				m.query(ip, dns.TypeA)
+				if len(list) == 0 && ip == persA && j >= int(n) && m.last.mustPass && !m.last.drop {
+					r.Bucket("l5_backend_persistent_pass_after_empty_refresh", 1)
+				}
 			}
 		}
 	}
